@@ -17,7 +17,7 @@ def prop(pid):
 
 SIZES = {  # (cases, plies) per tier for the walk family
     "quick": {"C01": (70, 14), "C02": (90, 24), "C03": (90, 20), "C04": (90, 24), "C11": (90, 24), "C16": (110, 30)},
-    "thorough": {"C01": (1500, 40), "C02": (3000, 60), "C03": (3000, 50), "C04": (3000, 60), "C11": (3000, 60), "C16": (3000, 80)},
+    "thorough": {"C01": (4000, 40), "C02": (10000, 60), "C03": (10000, 50), "C04": (8000, 60), "C11": (10000, 60), "C16": (8000, 80)},
 }
 
 
@@ -122,7 +122,7 @@ def run_property(pid, rep, replay=None):
 # ----------------------------------------------------------------------------- search family
 from . import searchchk  # noqa: E402
 
-SEARCH_SIZES = {"quick": {"C06": (60, 3), "C18": (60, 3)}, "thorough": {"C06": (1500, 5), "C18": (1500, 5)}}
+SEARCH_SIZES = {"quick": {"C06": (60, 3), "C18": (60, 3)}, "thorough": {"C06": (4000, 5), "C18": (4000, 5)}}
 
 
 def search_property(pid, rep, replay=None):
